@@ -330,6 +330,39 @@ theorem fftfreq_neg_odd (n : ℕ) (hodd : n % 2 = 1) (u : ℤ) :
 /-- evenness of a real transfer function under index negation modulo the shape (`K(−f) = K(f)`: Hermitian, being real) -/
 def KerEven (k : Arr ℝ) (m n : ℕ) : Prop := ∀ u v : ℤ, k.get ((-u) % m) ((-v) % n) = k.get (u % m) (v % n)
 
+/-- on any axis the frequency index at the negated sample index is the negated one, or (at the unpaired Nyquist sample of an
+even axis) the same one -/
+theorem fftfreqIdx_neg_any (n : ℕ) (hn : 0 < n) (u : ℤ) :
+    fftfreqIdx n ((-u) % n) = -fftfreqIdx n (u % n) ∨ fftfreqIdx n ((-u) % n) = fftfreqIdx n (u % n) := by
+  have hn' : (0 : ℤ) < n := by exact_mod_cast hn
+  have hw0 := Int.emod_nonneg u (ne_of_gt hn')
+  have hw1 := Int.emod_lt_of_pos u hn'
+  rw [neg_emod_cases n hn u]
+  unfold fftfreqIdx
+  split_ifs <;> omega
+
+theorem fftfreq_neg_any (n : ℕ) (hn : 0 < n) (u : ℤ) :
+    (fftfreq n ((-u) % n) : ℝ) = -fftfreq n (u % n) ∨ (fftfreq n ((-u) % n) : ℝ) = fftfreq n (u % n) := by
+  unfold fftfreq
+  rcases fftfreqIdx_neg_any n hn u with h | h
+  · left; rw [h]; simp [RealLike.ofInt, neg_div]
+  · right; rw [h]
+
+/-- the pixel transfer function is Hermitian on every shape (sinc is even in each frequency separately) -/
+theorem pixelKernel_even_any (m n : ℕ) (hm : 0 < m) (hn : 0 < n) (os : ℝ) : KerEven (pixelKernel m n os) m n := by
+  intro u v
+  simp only [pixelKernel, Gen.bwPixelKernel, BlurLike.sinc]
+  rcases fftfreq_neg_any m hm u with h1 | h1 <;> rcases fftfreq_neg_any n hn v with h2 | h2 <;>
+    simp only [h1, h2, neg_mul, mul_neg, Real.sinc_neg]
+
+/-- the jitter transfer function is Hermitian on every shape (it depends on `f_x² + f_y²` only) -/
+theorem jitterKernel_even_any (m n : ℕ) (hm : 0 < m) (hn : 0 < n) (scale ps os : ℝ) :
+    KerEven (jitterKernel m n scale ps os) m n := by
+  intro u v
+  simp only [jitterKernel, Gen.bwJitterKernel]
+  rcases fftfreq_neg_any m hm u with h1 | h1 <;> rcases fftfreq_neg_any n hn v with h2 | h2 <;>
+    simp only [h1, h2, neg_mul_neg]
+
 theorem pixelKernel_even (m n : ℕ) (hm : m % 2 = 1) (hn : n % 2 = 1) (os : ℝ) : KerEven (pixelKernel m n os) m n := by
   intro u v
   simp only [pixelKernel, Gen.bwPixelKernel, fftfreq_neg_odd m hm, fftfreq_neg_odd n hn, BlurLike.sinc, neg_mul, mul_neg,
@@ -414,5 +447,140 @@ def EqualsConvolution (img k : Arr ℝ) (m n : ℕ) : Prop :=
     (∀ i j : ℕ, i < m → j < n → (blurCore ℂ img k).get i j = ((conv img k).get i j).re) ∧
     (k.get 0 0 = 1 → arrSum (blurCore ℂ img k) = arrSum img ∧
       (arrSum img ≠ 0 → ∀ i j : ℕ, i < m → j < n → (renorm img (blurCore ℂ img k)).get i j = ((conv img k).get i j).re)))
+
+/-! ## convolution theorem; deviation from the Hermitian part (smear on even axes) -/
+
+theorem sum4_reorder (A B A' B' : Finset ℕ) (T : ℕ → ℕ → ℕ → ℕ → ℂ) :
+    ∑ v ∈ B, ∑ u ∈ A, ∑ b ∈ B', ∑ a ∈ A', T a b u v = ∑ a ∈ A', ∑ b ∈ B', ∑ v ∈ B, ∑ u ∈ A, T a b u v := by
+  calc ∑ v ∈ B, ∑ u ∈ A, ∑ b ∈ B', ∑ a ∈ A', T a b u v
+      = ∑ v ∈ B, ∑ b ∈ B', ∑ u ∈ A, ∑ a ∈ A', T a b u v := sum_congr rfl fun v _ => sum_comm
+    _ = ∑ b ∈ B', ∑ v ∈ B, ∑ u ∈ A, ∑ a ∈ A', T a b u v := sum_comm
+    _ = ∑ b ∈ B', ∑ v ∈ B, ∑ a ∈ A', ∑ u ∈ A, T a b u v := sum_congr rfl fun b _ => sum_congr rfl fun v _ => sum_comm
+    _ = ∑ b ∈ B', ∑ a ∈ A', ∑ v ∈ B, ∑ u ∈ A, T a b u v := sum_congr rfl fun b _ => sum_comm
+    _ = ∑ a ∈ A', ∑ b ∈ B', ∑ v ∈ B, ∑ u ∈ A, T a b u v := sum_comm
+
+/-- **convolution theorem for the model's DFT pair.** The Fourier-form convolution `conv img k = ifft2(fft2(img)·k)` is the
+spatial circular convolution of the image with the point-spread function `h = ifft2(k)`:
+`c[i, j] = Σ_a Σ_b img[a, b] · h[(i − a) mod m, (j − b) mod n]`. -/
+theorem conv_eq_circular_convolution (img k : Arr ℝ) (m n : ℕ) (hm : img.s0 = m) (hn : img.s1 = n) (hkm : k.s0 = m) (hkn : k.s1 = n)
+    (hm0 : 0 < m) (hn0 : 0 < n) (i j : ℤ) :
+    (conv img k).get i j = ∑ a ∈ range m, ∑ b ∈ range n, (img.get a b : ℂ) *
+      (ifft2 (R := ℝ) (toCx (K := ℂ) k)).get ((i - a) % m) ((j - b) % n) := by
+  have hX : ∀ u v : ℤ, (fft2 (R := ℝ) (toCx (K := ℂ) img)).get u v
+      = ∑ b ∈ range n, (∑ a ∈ range m, fker m a u * (img.get a b : ℂ)) * fker n b v :=
+    fun u v => by rw [fft2_get_eq _ m n hm hn]; rfl
+  have hH : ∀ p q : ℤ, (ifft2 (R := ℝ) (toCx (K := ℂ) k)).get p q
+      = (∑ v ∈ range n, (∑ u ∈ range m, conj (fker m u p) * (k.get u v : ℂ)) * conj (fker n v q)) / ((m : ℂ) * n) :=
+    fun p q => by rw [ifft2_get_eq _ m n hkm hkn]; rfl
+  unfold conv
+  rw [ifft2_get_eq _ m n hm hn]
+  simp only [mulKernel, hX, hH, CxLike.ofReal]
+  simp only [← conj_fker_mul m hm0 _ i, ← conj_fker_mul n hn0 _ j]
+  simp only [div_eq_mul_inv, mul_sum, sum_mul]
+  rw [sum4_reorder (range m) (range n) (range m) (range n)
+    (fun a b u v => conj (fker m u i) * (fker m a u * (img.get a b : ℂ) * fker n b v * (k.get u v : ℂ)) * conj (fker n v j) * ((m : ℂ) * n)⁻¹)]
+  refine sum_congr rfl fun a _ => sum_congr rfl fun b _ => sum_congr rfl fun v _ => sum_congr rfl fun u _ => ?_
+  ring
+
+/-- even and odd parts of a real transfer function under negation of the frequency indices modulo the shape -/
+noncomputable def evenPart (k : Arr ℝ) (m n : ℕ) : Arr ℝ :=
+  { k with get := fun u v => (k.get (u % m) (v % n) + k.get ((-u) % m) ((-v) % n)) / 2 }
+noncomputable def oddPart (k : Arr ℝ) (m n : ℕ) : Arr ℝ :=
+  { k with get := fun u v => (k.get (u % m) (v % n) - k.get ((-u) % m) ((-v) % n)) / 2 }
+
+theorem neg_neg_emod (n : ℕ) (u : ℤ) : (-((-u) % (n : ℤ))) % (n : ℤ) = u % n := by
+  apply (Int.emod_emod_of_dvd _ (dvd_refl (n : ℤ))).symm.trans
+  rw [Int.emod_emod_of_dvd _ (dvd_refl _)]
+  apply Int.emod_eq_emod_iff_emod_sub_eq_zero.mpr
+  have h := Int.emod_add_mul_ediv (-u) n
+  have : -((-u) % (n : ℤ)) - u = (n : ℤ) * ((-u) / n) := by linarith
+  rw [this, Int.mul_emod_right]
+
+theorem neg_emod_emod (n : ℕ) (u : ℤ) : (-(u % (n : ℤ))) % (n : ℤ) = (-u) % n := by
+  apply Int.emod_eq_emod_iff_emod_sub_eq_zero.mpr
+  have h := Int.emod_add_mul_ediv u n
+  have : -(u % (n : ℤ)) - -u = (n : ℤ) * (u / n) := by linarith
+  rw [this, Int.mul_emod_right]
+
+theorem evenPart_even (k : Arr ℝ) (m n : ℕ) : KerEven (evenPart k m n) m n := by
+  intro u v
+  simp only [evenPart, Int.emod_emod_of_dvd _ (dvd_refl _), neg_emod_emod]
+  ring
+
+theorem norm_fker (n : ℕ) (a k : ℤ) : ‖fker n a k‖ = 1 := by
+  rw [fker_eq, E, Complex.norm_exp]
+  simp [Complex.div_re, Complex.mul_re, Complex.mul_im]
+
+/-- the inverse transform is bounded by the mean absolute spectrum -/
+theorem norm_ifft2_le (Y : Arr ℂ) (m n : ℕ) (hm : Y.s0 = m) (hn : Y.s1 = n) (i j : ℤ) :
+    ‖(ifft2 (R := ℝ) Y).get i j‖ ≤ (∑ v ∈ range n, ∑ u ∈ range m, ‖Y.get u v‖) / ((m : ℝ) * n) := by
+  rw [ifft2_get_eq Y m n hm hn, norm_div]
+  have hden : ‖((m : ℂ) * n)‖ = (m : ℝ) * n := by simp
+  rw [hden]
+  apply div_le_div_of_nonneg_right _ (by positivity)
+  refine (norm_sum_le _ _).trans (sum_le_sum fun v _ => ?_)
+  rw [norm_mul, Complex.norm_conj, norm_fker, mul_one]
+  refine (norm_sum_le _ _).trans (sum_le_sum fun u _ => ?_)
+  rw [norm_mul, Complex.norm_conj, norm_fker, one_mul]
+
+/-- the Fourier-form convolution is additive in the transfer function (on the samples of the shape) -/
+theorem conv_add (img k kH kN : Arr ℝ) (m n : ℕ) (hm : img.s0 = m) (hn : img.s1 = n)
+    (hk : ∀ u v : ℕ, u < m → v < n → k.get u v = kH.get u v + kN.get u v) (i j : ℤ) :
+    (conv img k).get i j = (conv img kH).get i j + (conv img kN).get i j := by
+  unfold conv
+  rw [ifft2_get_eq _ m n hm hn, ifft2_get_eq _ m n hm hn, ifft2_get_eq _ m n hm hn, ← add_div]
+  congr 1
+  rw [← sum_add_distrib]
+  refine sum_congr rfl fun v hv => ?_
+  rw [← add_mul, ← sum_add_distrib]
+  congr 1
+  refine sum_congr rfl fun u hu => ?_
+  simp only [mulKernel, CxLike.ofReal, hk u v (mem_range.mp hu) (mem_range.mp hv)]
+  push_cast; ring
+
+/-- **deviation from the Hermitian part.** For any real transfer function `k`, split into its even (Hermitian) part and its odd
+part under index negation: the un-normalised blur differs from `|c_H|`, the absolute value of the *real* convolution with the
+Hermitian part, by at most the mean of `|fft2(img)|·|k_odd|` over the spectrum. -/
+theorem blur_deviation_le (img k : Arr ℝ) (m n : ℕ) (hm : img.s0 = m) (hn : img.s1 = n) (hm0 : 0 < m) (hn0 : 0 < n) (i j : ℤ) :
+    (conv img (evenPart k m n)).get i j = (((conv img (evenPart k m n)).get i j).re : ℂ) ∧
+    abs ((blurCore ℂ img k).get i j - abs ((conv img (evenPart k m n)).get i j).re)
+      ≤ (∑ v ∈ range n, ∑ u ∈ range m, ‖(fft2 (R := ℝ) (toCx (K := ℂ) img)).get u v‖ * |(oddPart k m n).get u v|) / ((m : ℝ) * n) := by
+  have hreal : (conv img (evenPart k m n)).get i j = (((conv img (evenPart k m n)).get i j).re : ℂ) :=
+    (Complex.conj_eq_iff_re.mp (filtered_real img (evenPart k m n) m n hm hn hm0 hn0 (evenPart_even k m n) i j)).symm
+  refine ⟨hreal, ?_⟩
+  have hsplit := conv_add img k (evenPart k m n) (oddPart k m n) m n hm hn (fun u v hu hv => by
+    simp only [evenPart, oddPart, emod_range_nat m u (mem_range.mpr hu), emod_range_nat n v (mem_range.mpr hv)]; ring) i j
+  have hb : (blurCore ℂ img k).get i j = ‖(conv img k).get i j‖ := by rw [blurCore_def]; rfl
+  have hH : abs ((conv img (evenPart k m n)).get i j).re = ‖(conv img (evenPart k m n)).get i j‖ := by
+    conv_rhs => rw [hreal]
+    rw [Complex.norm_real, Real.norm_eq_abs]
+  rw [hb, hH, hsplit]
+  refine (abs_norm_sub_norm_le _ _).trans ?_
+  rw [add_sub_cancel_left]
+  refine (norm_ifft2_le _ m n hm hn i j).trans (le_of_eq ?_)
+  congr 1
+  refine sum_congr rfl fun v _ => sum_congr rfl fun u _ => ?_
+  simp only [mulKernel, CxLike.ofReal, norm_mul, Complex.norm_real, Real.norm_eq_abs]
+
+/-- off the Nyquist sample of an even axis the frequency index is negated with the sample index -/
+theorem fftfreqIdx_neg_off_nyquist (n : ℕ) (hn : 0 < n) (u : ℤ) (h : 2 * (u % (n : ℤ)) ≠ n) :
+    fftfreqIdx n ((-u) % n) = -fftfreqIdx n (u % n) := by
+  have hn' : (0 : ℤ) < n := by exact_mod_cast hn
+  have hw0 := Int.emod_nonneg u (ne_of_gt hn')
+  have hw1 := Int.emod_lt_of_pos u hn'
+  rw [neg_emod_cases n hn u]
+  unfold fftfreqIdx
+  split_ifs <;> omega
+
+/-- the odd part of the smear transfer function lives on the Nyquist row / column of even axes only -/
+theorem smear_oddPart_support (m n : ℕ) (hm : 0 < m) (hn : 0 < n) (dist ang ps os : ℝ) (u v : ℤ)
+    (hu : 2 * (u % (m : ℤ)) ≠ m) (hv : 2 * (v % (n : ℤ)) ≠ n) :
+    (oddPart (smearKernel m n dist ang ps os) m n).get u v = 0 := by
+  have fu : (fftfreq m ((-u) % m) : ℝ) = -fftfreq m (u % m) := by
+    unfold fftfreq; rw [fftfreqIdx_neg_off_nyquist m hm u hu]; simp [RealLike.ofInt, neg_div]
+  have fv : (fftfreq n ((-v) % n) : ℝ) = -fftfreq n (v % n) := by
+    unfold fftfreq; rw [fftfreqIdx_neg_off_nyquist n hn v hv]; simp [RealLike.ofInt, neg_div]
+  simp only [oddPart, smearKernel, Gen.bwSmearKernel, fu, fv, BlurLike.sinc, mul_neg, ← neg_add, neg_mul, Real.sinc_neg, sub_self,
+    zero_div]
 
 end Lentil
